@@ -23,8 +23,11 @@ vars == <<l, store, cfg, insOnly, viol>>
 Empty == [x \in {} |-> 0]
 Rank(p, q) == RankDef[p][q]
 Merge(n, o) == [k \in DOMAIN n |-> IF n[k] # 0 THEN n[k] ELSE o[k]]
-NKeys(m) == Cardinality({k \in DOMAIN m : m[k] # 0})
-ItemBytes(m) == 16 + 4 * cfg.dim + 2 * NKeys(m)
+\* metadata bytes: keys are one byte; values one byte, except the abstract value 3 = the empty string
+RECURSIVE MetaBytes(_, _)
+MetaBytes(m, D) == IF D = {} THEN 0 ELSE LET k == CHOOSE x \in D : TRUE
+                   IN (IF m[k] = 0 THEN 0 ELSE IF m[k] = 3 THEN 1 ELSE 2) + MetaBytes(m, D \ {k})
+ItemBytes(m) == 16 + 4 * cfg.dim + MetaBytes(m, DOMAIN m)
 Drop(f, x) == [y \in DOMAIN f \ {x} |-> f[y]]
 Put(f, x, v) == [y \in DOMAIN f \cup {x} |-> IF y = x THEN v ELSE f[y]]
 Max(a, b) == IF a > b THEN a ELSE b
@@ -103,7 +106,7 @@ StreamViol(t) ==
   IF t.res # "ok" THEN {<<l, "RtErr">>}
   ELSE (IF Items(t.st) = Items(t.pre) THEN {} ELSE {<<l, "RtItems">>})
        \cup (IF Links(t.st) = Links(t.pre) THEN {} ELSE {<<l, "RtLinks">>})
-       \cup (IF Len(t.pre.ep) = 4 /\ t.pre.ep[2] = 0 /\ t.st.ep # t.pre.ep THEN {<<l, "RtEp">>} ELSE {})
+       \cup (IF (Len(t.pre.ep) = 4 /\ t.pre.ep[2] = 0 /\ t.st.ep # t.pre.ep) \/ (Len(t.pre.live) = 0 /\ Len(t.st.ep) # 0) THEN {<<l, "RtEp">>} ELSE {})
        \cup (IF t.st.len = Len(t.pre.live) THEN {} ELSE {<<l, "RtLen">>})
        \cup (IF t.st.bytes = t.pre.bytes THEN {} ELSE {<<l, "RtBytes">>})
        \cup (IF t.st.tomb = 0 /\ t.st.dang = 0 THEN {} ELSE {<<l, "RtStale">>})
@@ -138,6 +141,10 @@ Step ==
                /\ viol' = viol \cup Fatal(t)
                                \cup (IF Fatal(t) # {} \/ (t.res = "batch" /\ ErrMap(t) = r.errs) THEN {} ELSE {<<l, "BatchErrs">>})
                                \cup FullViol(t, r.s, ins)
+       [] t.ev = "loadempty" ->     \* the snapshot of an EMPTY index restored into this (used) index
+            /\ store' = Empty /\ cfg' = cfg /\ insOnly' = FALSE
+            /\ viol' = viol \cup (IF t.res = "ok" THEN {} ELSE {<<l, "RtErr">>}) \cup FullViol(t, Empty, FALSE)
+                            \cup (IF t.full = 1 /\ (t.st.tomb # 0 \/ Len(t.st.ep) # 0) THEN {<<l, "RtStale">>} ELSE {})
        [] t.ev = "stream" ->
             /\ store' = store /\ cfg' = cfg /\ insOnly' = insOnly
             /\ viol' = viol \cup StreamViol(t)
